@@ -62,6 +62,12 @@ type Dialogue struct {
 	// Lo: the case is a login through the real telnet transport over loopback TCP (all other fields
 	// unused).
 	Lo *LoDesc `json:"telnet_loopback,omitempty"`
+	// LogLevel: the session gets a real logger (a logging.Instance of this level with a logger
+	// function); "" = none.
+	LogLevel string `json:"log_level,omitempty"`
+	// Interleave (with Then): Then is opened and used after this dialogue's Open and BEFORE its first
+	// operation.
+	Interleave bool `json:"interleave,omitempty"`
 	// CloseErr: the transport's Close does close it but returns an error.
 	CloseErr bool `json:"close_err,omitempty"`
 	// Loss: the connection is lost during the login exchange: "eof" | "err" | "err-timedout" (reads
@@ -764,6 +770,7 @@ func GenDialogue(r *rand.Rand, o GenOpts) (Dialogue, GenStats) {
 	}
 	genTransport(r, &d)
 	d.CloseErr = r.Intn(6) == 0
+	d.LogLevel = []string{"", "", "", "", "debug", "debug", "info", "critical"}[r.Intn(8)]
 	if d.Driver != "netconf" {
 		switch r.Intn(12) {
 		case 0:
